@@ -48,6 +48,7 @@ def run(ctx):
     ctx.do(rule_commit_last)
     ctx.do(rule_failed_write_leaves_no_file)
     ctx.do(rule_raw_content_stored_only_parsed)
+    ctx.do(rule_family_compares_before_it_writes)
     ctx.do(rule_constraint_methods_total)
     ctx.do(rule_registry_class_attr)
     ctx.do(rule_input_parsers_guarded)
@@ -992,3 +993,34 @@ def _in_try(node, names):
                     return True
         c_, p_ = p_, getattr(p_, "parent", None)
     return False
+
+
+def rule_family_compares_before_it_writes(ctx, R="C17.commit-last"):
+    """_ObjectFamily.add() orders the new member against the newest one with `>=` on the two `modified` values.  For content the
+    library does not validate (a dictionary of an unregistered type keeps its timestamps as TEXT) that comparison can raise
+    TypeError (str against datetime).  Check-then-commit: every operation of add() that can raise -- the order comparison -- is
+    evaluated BEFORE the first write into the family (CFG: no path from a write to the comparison), so a refused add() leaves
+    all_versions() / query() as they were."""
+    run = ctx.run
+    prog = ctx.prog
+    fi = prog.func("stix2.datastore.memory::_ObjectFamily.add")
+    rel = fi.module.relpath
+    g = cfg_of(fi)
+    writes = [n for n in g.nodes if n.kind == "stmt" and isinstance(n.ast, (ast.Assign, ast.AugAssign)) and any(
+        (isinstance(t_, ast.Subscript) and norm(t_.value).startswith("self.")) or (isinstance(t_, ast.Attribute) and norm(t_.value) == "self")
+        for t_ in (n.ast.targets if isinstance(n.ast, ast.Assign) else [n.ast.target]))]
+    writes += [n for n in g.nodes if n.kind == "stmt" and isinstance(n.ast, ast.Expr) and isinstance(n.ast.value, ast.Call)
+               and isinstance(n.ast.value.func, ast.Attribute) and norm(n.ast.value.func.value).startswith("self.")
+               and n.ast.value.func.attr in ("append", "add", "update", "setdefault", "insert", "extend")]
+    cmps = [n for n in g.nodes if n.ast is not None and n.kind in ("stmt", "test") and any(
+        isinstance(x, ast.Compare) and any(isinstance(o, (ast.Lt, ast.LtE, ast.Gt, ast.GtE)) for o in x.ops)
+        for x in ast.walk(n.ast.test if n.kind == "test" and hasattr(n.ast, "test") else n.ast))]
+    if not writes or not cmps:
+        raise AnalysisError("_ObjectFamily.add: writes (%d) / order comparison (%d) not found" % (len(writes), len(cmps)))
+    late = [(w, c) for w in writes for c in cmps if c is not w and c in g.reachable_from(w, labels_skip=("exc", "raise"))]
+    run.check(not late, R, key(rel, fi.qualname, "order-comparison-before-first-write"),
+              "the family is written before the order comparison of the `modified` values is evaluated: when the comparison "
+              "raises (text against datetime, for a dictionary of an unregistered type that shares the id of a stored object) "
+              "add() fails but the refused content is already a member -- all_versions() and query() return it", file=rel,
+              line=late[0][0].ast.lineno if late else fi.node.lineno, function=fi.qualname,
+              expected="newest = <comparison>; then the writes", found=[short(w.ast, 60) for w, _ in late[:2]])
